@@ -168,6 +168,13 @@ def main(argv=None) -> int:
         if all(m in built for m in u.lean_modules):
             thms += [(u, t) for t in u.theorems]
     audit = leanio.audit_axioms([m for m in modules if m in built], [t.name for _, t in thms], f"{prop}") if thms else {}
+    if any("environment already contains" in (r.get("error") or "") for r in audit.values()):
+        # two families' modules define the same name and cannot be imported into ONE audit file: audit unit by unit
+        # (each unit's own import closure is consistent, it was built as such)
+        audit = {}
+        for u in units:
+            if u.theorems and all(m in built for m in u.lean_modules):
+                audit.update(leanio.audit_axioms(list(u.lean_modules), [t.name for t in u.theorems], f"{prop}_{u.name}"))
     obligations = sum(len(u.theorems) for u in units)
     discharged = 0
     thm_report = []
